@@ -174,11 +174,84 @@ def other_configuration_between(chk):
                           {"kind": "other-configuration-between", "between": name, "first_difference": first_diff(b1, b2)})
 
 
+def same_config_object_twice(chk):
+    """An embedding application keeps ONE EngineConfig and runs it again: the second run must send what the first one
+    sent, and the configuration (its seed above all) is the caller's — a run leaves it as it found it.  Hypothesis settings
+    that need no adapting for state machines (explicit phases, step count, deadline, health checks) so that the engine has
+    no reason to work on a copy."""
+    import hypothesis
+    from flask import Flask, jsonify, request
+    from schemathesis.engine.phases import PhaseName
+    raw = RAWS["examples-links"]
+    ec = E.engine_config(phases=[PhaseName.FUZZING, PhaseName.STATEFUL_TESTING], workers=1, max_examples=4, seed=1234,
+                         stateful_step_count=3)
+    ec.execution.hypothesis_settings = hypothesis.settings(ec.execution.hypothesis_settings, phases=[hypothesis.Phase.generate])
+    logs, seeds = [], [ec.execution.seed]
+    for _ in range(2):
+        log = []
+        app = Flask("c13-same")
+
+        @app.route("/<path:p>", methods=["GET", "POST", "PUT", "PATCH", "DELETE"])
+        def any_(p, log=log):
+            log.append([request.method, request.full_path.rstrip("?"), request.get_data().decode("latin-1")])
+            return (jsonify({"id": 5}), 201) if request.method == "POST" else (jsonify({"id": 5}), 200)
+        with E.Server(app) as srv:
+            E.run_engine(E.load_schema(srv.url, raw=raw), ec)
+        logs.append(log)
+        seeds.append(ec.execution.seed)
+    chk.case("in-process:same-config-object", key=["FUZZING+STATEFUL_TESTING", 1234], nontrivial=bool(logs[0]),
+             sample={"requests": [len(x) for x in logs], "seed_before_and_after_each_run": seeds})
+    chk.feature(f"in-process:same-config-object:seed-kept={len(set(seeds)) == 1}")
+    if len(set(seeds)) != 1 or logs[0] != logs[1]:
+        chk.violation("C13:in-process:second-run-with-the-same-config-object-differs:FUZZING+STATEFUL_TESTING",
+                      f"one EngineConfig (seed 1234) run twice in one process: the seed it holds goes {seeds}; "
+                      f"requests {len(logs[0])} / {len(logs[1])}, equal: {logs[0] == logs[1]}",
+                      {"kind": "same-config-object", "seeds": seeds, "first_difference": first_diff(logs[0], logs[1])})
+
+
+def forced_producer_schedule(chk):
+    """The number of workers affects speed, not what is tested — also when the workers ask the task producer for their
+    first operation at the same moment.  Forced schedule: obtaining the operations iterator is slow (0.2 s), so whatever
+    the producer does lazily on the first request is done by both workers at once.  Coverage phase (deterministic values):
+    the multiset of requests per operation with two workers must be the one of a single worker."""
+    from unittest import mock
+    from schemathesis.engine.phases import PhaseName
+    from schemathesis.specs.openapi.schemas import BaseOpenAPISchema
+    import time as _time
+    real = BaseOpenAPISchema.get_all_operations
+
+    def slow(self, *a, **kw):
+        _time.sleep(0.2)
+        return real(self, *a, **kw)
+
+    counts = {}
+    for workers in (1, 2):
+        log = []
+        app = E.make_app(lambda p, n: 200, log=log)
+        with E.Server(app) as srv:
+            schema = E.load_schema(srv.url, 4)
+            cfg = E.engine_config(phases=[PhaseName.COVERAGE], workers=workers, max_examples=2, seed=5)
+            with mock.patch.object(BaseOpenAPISchema, "get_all_operations", slow):
+                E.run_engine(schema, cfg)
+        counts[workers] = Counter((p, q, m) for p, _, q, m in log)
+    chk.case("workers:forced-first-request", key=["COVERAGE", 5], nontrivial=bool(counts[1]),
+             sample={"one_worker": sum(counts[1].values()), "two_workers": sum(counts[2].values())})
+    chk.feature(f"workers:forced-first-request:equal={counts[1] == counts[2]}")
+    if counts[1] != counts[2]:
+        d = (counts[2] - counts[1]) + (counts[1] - counts[2])
+        chk.violation("C13:workers:per-operation-requests-differ-from-one-worker:COVERAGE:workers-start-together",
+                      f"coverage phase, same seed: {sum(counts[1].values())} requests with one worker, "
+                      f"{sum(counts[2].values())} with two workers that ask for their first operation at the same moment",
+                      {"kind": "forced-producer", "difference": [[list(k), v] for k, v in list(d.items())[:6]]})
+
+
 def run(chk):
     # the state shared by worker threads first: forced interleavings on the real schema object (harness/c13_shared.py)
     c13_shared.run_shared(chk)
     forced_drain(chk)
     other_configuration_between(chk)
+    same_config_object_twice(chk)
+    forced_producer_schedule(chk)
     rng = chk.rng
     ss, derand = sites()
     classes = Counter(c for *_, c in ss)
